@@ -2183,7 +2183,16 @@ class Measurement:
         uncertainty = (self.uncertainty**2 + theirs**2).root(2)
         return Measurement(measurand, uncertainty)
 
-    __radd__ = __add__
+    def __radd__(self, other: Union["Measurement", Quantity]) -> "Measurement":
+        # like __rsub__: the quantity on the left stays on the left, so the sum is
+        # taken (and expressed) the way `quantity + measurand` is
+        if isinstance(other, Quantity):
+            other = Measurement(other, 0)
+
+        if not isinstance(other, Measurement):
+            return NotImplemented
+
+        return other + self
 
     def __sub__(self, other: Union["Measurement", Quantity]) -> "Measurement":
         if isinstance(other, Quantity):
